@@ -15,8 +15,10 @@ import sys
 
 ID = "C02"
 RULE = ("histories on a fresh Directory volume: (a) exhaustive: PUT of sizes {0, 1, small, >2^18} x pre-state "
-        "{absent, intact copy, stored by an acknowledged PUT, corrupt copy} x {run, SIGKILL at every verifPoint reached, context cancelled at every "
-        "verifPoint reached}; (b) WriteBlock with a scripted reader: SIGKILL after every chunk, reader error after every "
+        "{absent, intact copy, stored by an acknowledged PUT, corrupt copy} x {run, SIGKILL at verifPoints of Compare/Touch/WriteBlock, context cancelled at verifPoints, "
+        "context cancelled in the middle of the copy from putWithPipe's pipe, Chtimes / Rename of the first WriteBlock attempt made "
+        "to fail (temp file unlinked just before) so that PutBlock retries, with kills in the error return and in the retry} "
+        "(quick: stratified sample of the points, thorough: every point); (b) WriteBlock with a scripted reader: SIGKILL after every chunk, reader error after every "
         "chunk, write failure at a byte limit (RLIMIT_FSIZE), each also killed inside the error path; (c) two overlapping PUTs of one block in one process (A held mid-copy, B started and held, A acknowledged, "
         "B cancelled / finished / process killed); (d) the volume marked full (<root>/full) before a PUT; (e) random histories "
         "of seed/tick/put/wb/touch/del/untrash/empty ops with kill points. A case is non-trivial when at least one op is "
@@ -29,7 +31,7 @@ ASSUMPTIONS = [
 TRUSTED = [
     "power loss / missing fsync, NFS semantics and atomicity of rename(2) are not modelled",
     "the instrumenter /verif/translator/instrument (add-only verifPoint insertion into a copy of unix_volume.go)",
-    "failure of close/chtimes/rename themselves is covered by the proof and the syntactic tie only (cannot be injected at run time); write failure is injected with RLIMIT_FSIZE",
+    "failure of tmpfile.Close and of the flock of the old copy is covered by the proof and the syntactic tie only (cannot be injected at run time); write failure is injected with RLIMIT_FSIZE, Chtimes/Rename failure by unlinking the temp file just before the call",
     "executable MD5 in Lean (ArvVerif/Base/MD5.lean), compared with Go crypto/md5 through every case",
 ]
 
@@ -143,6 +145,16 @@ def _put_family(rng, kind, pre, exhaustive):
         nch = _chunks(size, chunk)
         js = list(range(nch + 2)) if exhaustive else sorted({rng.randrange(nch + 1), rng.randrange(nch + 1)})
         modes += [f"m{j}x{chunk}" for j in js]
+    if writes:
+        # fault injection: the Chtimes / Rename of the first WriteBlock attempt fails (temp file unlinked
+        # just before), PutBlock tries the volume again; kills in the error return and in the retry
+        ci, ri = ncmp + 4, n - 1
+        for fi, first_len in ((ci, 5), (ri, nrest)):
+            total = ncmp + first_len + 1 + nrest  # first attempt up to the failing call, its Remove, second attempt
+            if exhaustive:
+                modes += [f"f{fi}"] + [f"f{fi}k{j}" for j in range(fi, total)]
+            elif rng.random() < 0.5:
+                modes += [f"f{fi}", f"f{fi}k{rng.randrange(fi, total)}"]
     return [f"hist {head}put:{b}:{m}" for m in modes]
 
 
@@ -253,6 +265,9 @@ def _random_history(rng, tier):
                 m = f"m{j}x{chunk}"
             if m.startswith("c") and size == 0 and not last:
                 m = "run"
+            if rng.random() < 0.08:
+                fi = rng.randint(4, 11)
+                m = rng.choice([f"f{fi}", f"f{fi}k{rng.randint(fi, fi + 9)}"])
             ops.append(f"put:{b}:{m}")
         elif r < 0.35:
             chunk = rng.choice([1, 3, 100, 4096, 32768])
